@@ -56,6 +56,9 @@ P = {
  "C14": ("Coq proof of bounds entailment over declarations regenerated from the source by a translator (every unsafe impl Send/Sync, constructor, adaptor and ConcurrentIter impl; refutation with witness for the known finding) + compile probes (must-reject program with its must-compile twin) and run-time ownership probes built against the current tree",
          "Theorems in props/C14.v (38): c14_every_unsafe_impl_is_covered / c14_every_constructor_is_covered / c14_every_concurrent_iter_impl_is_covered (the lists the translator extracts from src/**/*.rs equal the lists the proofs know, so a new unsafe impl or constructor breaks a proof), and for each of them `forall flags, declared flags = true -> required flags = true`, where declared_* is generated from the where-clauses and supertraits of the source on every run (tools/extract_bounds.py -> coq/gen/Bounds.v, fail closed) and required_* is derived from how the type is used across threads (Moves role => Send, Shares role => Sync). For ConIterOfIter the entailment is false on the pinned tree: c14_ConIterOfIter_{sync,send}_refuted, c14_impl_ConIterOfIter_refuted, c14_ctor_iter_refuted are proved with a witness (known finding F10). The borrow / lifetime clauses and the 'no two owners through safe calls' clause are decided by rustc and by execution: 52 probe pairs (each a minimal client that must be rejected with an expected error class and a twin that must compile) over every constructor, adaptor, chunk, buffered iterator, wrapper and the low-level AtomicIter surface, and 3 run-time ownership probes under a drop ledger.",
          "No model of rustc's borrow checker is attempted: the lifetime clauses are translation validation on a finite probe family (partial), as the property's quantifier itself says. The required_* sets are hand-derived from the concurrency model and are part of the trusted base of this property."),
+ "C15": ("Coq proof (element half: ledger tiling at the end of life) + counting global allocator and zero-sized-element drop counts on the crate (block half)",
+         "Theorem c15_every_element_released_exactly_once: for consumed vectors and arrays, every length, every program and schedule, at any quiescent point, after drop or into_seq_iter with any number of elements taken from the remainder, the positions handed out and the positions destroyed by the machinery are pairwise disjoint, inside the collection and together all of it -- every element (and so whatever it owns) is released exactly once. On the crate: every generated history (create; consume fully, partly or not at all, sequentially or concurrently; drop or into_seq_iter) is run three times in one process under a counting global allocator and the live bytes and blocks of the process must not grow from the second repetition on (a growth is confirmed on six repetitions before it is reported); zero-sized elements with a destructor are run on vectors, arrays and owning wrapped iterators and the drops by the caller plus the destructions by the machinery must equal the length; the drop ledger and the extracted checker chk_C08 judge every trace.",
+         "Heap blocks (the consumed vector's buffer, the buffers of buffered iterators) are not objects of the Coq model: that half of the property is decided by the allocator measurement, which is testing (partial). The owning wrapped iterator's element ledger is judged by the extracted checker on traces, not by a theorem."),
  "C16": ("Coq proof (lia over the machine-word arithmetic layer) + boundary-matrix correspondence in both profiles",
          "Theorems c16_pull_arithmetic / c16_delivered_interval: for ALL b, n < 2^64, all lengths and all range bounds below 2^64, every pull of a known-size kind computes exactly [b, b+min(n,len-b)) (or the end), never panics, in both build modes. The boundary matrix of the property runs on the crate in the debug and the release harness and is compared with the model and judged by chk_C16/C02/C03.",
          "Run-level statement (chk_C16 on whole traces) is checked on implementation and model traces, not yet proved as a theorem; the wrapped iterator's reserved-counter wrap is known finding F14."),
@@ -65,7 +68,6 @@ P = {
 }
 
 NOT_YET = {
- "C15": "allocation ledger in progress; not claimed in this snapshot",
  "C19": "multi-iterator model in progress; not claimed in this snapshot",
 }
 
